@@ -431,7 +431,9 @@ def gen_id(g):
     """Rearrangements: permutation, (un)grouping, squeeze, broadcast, diagonal, concat/split, ellipsis."""
     rng = g.rng
     mode = rng.random()
-    if mode < 0.05:
+    if mode < 0.03:
+        return gen_id_split_concat(g)
+    if mode < 0.06:
         return gen_id_concat2(g)
     if mode < 0.18:
         return gen_id_concat(g)
@@ -491,6 +493,31 @@ def gen_id_multi(g):
         outs.append(g.layout(pool) if pool else ())
     kw = make_kwargs(rng, ins, outs)
     return _case("id", "id", show_op(ins, outs), ins, outs, kw, tags={"multi-io"} | tags_of(ins + outs))
+
+
+def gen_id_split_concat(g):
+    """One call that both splits and concatenates: 'a (b + c), a d -> b a, a (c + d)': one part of a split goes to an
+    output of its own (possibly transposed / with a new axis), another part is concatenated with a second input."""
+    rng = g.rng
+    a = Ax("a", rng.choice([1, 2, 3]))
+    b, c, d = (Ax(n, rng.choice([1, 2, 2, 3])) for n in "bcd")
+    k = Ax("k", 2)
+    if rng.random() < 0.5:
+        x_in = (a, Cat((b, c)))
+        y_in = (a, d)
+        first = rng.choice([(b, a), (a, b), (k, a, b), (Grp((a, b)),)])
+        second = (a, Cat((c, d)))
+    else:
+        x_in = (Cat((b, c)), a)
+        y_in = (d, a)
+        first = rng.choice([(a, b), (b, a), (b, k, a)])
+        second = (Cat((c, d)), a)
+    ins = [x_in, y_in]
+    outs = [first, second]  # einx pairs decomposed blocks by position: b-part first, then c and d
+    kw = {"b": b.size}
+    if any(isinstance(x, Ax) and x.name == "k" for x in first):
+        kw["k"] = 2
+    return _case("id", "id", show_op(ins, outs), ins, outs, kw, tags={"split-and-concat"} | tags_of(ins + outs))
 
 
 def gen_id_concat(g):
